@@ -10,7 +10,7 @@
       model store,
       PROPERTY holds: every response and every dump is what ExecSpec.spec_exec — the abstract
       Modbus data model, independent of the scripts — prescribes). *)
-From PM.theories Require Import Base Expr Store Exec ExecSpec ExecView.
+From PM.theories Require Import Base Expr Store Exec ExecSpec ExecView ExecWire.
 Open Scope string_scope.
 Open Scope list_scope.
 Open Scope Z_scope.
@@ -46,7 +46,7 @@ Inductive dump1 :=
 | DDigest (n dg : Z) (near : list (Z * Z)).            (* len, digest of the values in order, some cells *)
 
 Inductive hitem :=
-| HReq (w : wreq) (r : req) (o : obs_rsp) (faulted : bool)
+| HReq (w : wreq) (r : req) (o : obs_rsp) (faulted : bool) (pdu : list Z)   (* pdu = bytes([fc]) + response.encode(), [-1] if encode raised *)
 | HDump (ds : list dump1).
 
 (* position-weighted sum (no modulus: Z is unbounded and division is slow under vm_compute) *)
@@ -119,7 +119,7 @@ Fixpoint all2 {A B} (f : A -> B -> bool) (l : list A) (m : list B) : bool :=
 Fixpoint model_hist (st : fstore) (h : list hitem) : bool :=
   match h with
   | [] => true
-  | HReq w r o _ :: t =>
+  | HReq w r o _ _ :: t =>
       match decode_attrs w with
       | Ok r' =>
           req_eqb r' r &&
@@ -203,12 +203,14 @@ Fixpoint dumps_ok (l : ldesc) (s : astate) (b : nat) (ds : list bdesc) (os : lis
 Fixpoint prop_hist (l : ldesc) (s : astate) (h : list hitem) : bool :=
   match h with
   | [] => true
-  | HReq w _ o faulted :: t =>
+  | HReq w _ o faulted pdu :: t =>
       if faulted
       then (* datastore failure: exception 04 with fc|0x80, and nothing has changed *)
-           option_eqb srsp_eqb (oview o) (Some (SExc (Z.lor (wfc w) 128) 4)) && prop_hist l s t
+           let want := SExc (Z.lor (wfc w) 128) 4 in
+           option_eqb srsp_eqb (oview o) (Some want) && list_eqb Z.eqb pdu (spec_rsp_pdu want) && prop_hist l s t
       else let '(s', want) := spec_exec s w in
-           option_eqb srsp_eqb (oview o) (Some want) && prop_hist l s' t
+           (* the response object AND the bytes it encodes to *)
+           option_eqb srsp_eqb (oview o) (Some want) && list_eqb Z.eqb pdu (spec_rsp_pdu want) && prop_hist l s' t
   | HDump ds :: t => dumps_ok l s O (l_blocks l) ds && prop_hist l s t
   end.
 
